@@ -106,7 +106,10 @@ def main():
             for f in added:
                 os.remove(f)
         if not a.skip_suite:
-            rc, out, dt = sh("flock /tmp/pandora-suite.lock go test -vet=off -count=1 -timeout 25m ./...", wt, timeout=2400)
+            # only the packages under tests/ bind fixed ports; the rest of the suite runs beside other verifications
+            rc, out, dt = sh("go test -vet=off -count=1 -timeout 25m $(go list ./... | grep -v /tests/); r1=$?; "
+                             "flock /tmp/pandora-suite.lock go test -vet=off -count=1 -timeout 25m ./tests/...; r2=$?; "
+                             "[ $r1 -eq 0 ] && [ $r2 -eq 0 ]", wt, timeout=2400)
             bad = [l for l in out.splitlines() if l.startswith("FAIL") or l.startswith("--- FAIL") or l.startswith("panic")]
             res["suite"] = {"rc": rc, "s": round(dt, 1), "failing": bad[:20]}
             if rc != 0:
